@@ -820,6 +820,32 @@ func (e *vbEnv) exec(a vbAct) (out vbAct) {
 		if _, _, err := e.bm.writeCFHeadersMsg(msg, e.ffst); err != nil {
 			out.Res = "err"
 		}
+	case "ImportReset":
+		// headers imported from outside the block manager, then the
+		// manager is told to re-read its state (ChainService.Start)
+		_, th, err := e.bs.ChainTip()
+		if err != nil {
+			out.Res = "err"
+			return
+		}
+		hs := make([]headerfs.BlockHeader, 0, len(a.Batch))
+		fhs := make([]headerfs.FilterHeader, 0, len(a.Batch))
+		for j, id := range a.Batch {
+			h := th + uint32(j) + 1
+			hs = append(hs, headerfs.BlockHeader{BlockHeader: e.c.hdr[id], Height: h})
+			fhs = append(fhs, headerfs.FilterHeader{HeaderHash: e.c.hash[id], FilterHash: e.trueFH(id), Height: h})
+		}
+		if err := e.bs.WriteHeaders(hs...); err != nil {
+			out.Res = "err"
+			return
+		}
+		if err := e.fs.WriteHeaders(fhs...); err != nil {
+			out.Res = "err"
+			return
+		}
+		if err := e.bm.ResetHeaderState(); err != nil {
+			out.Res = "err"
+		}
 	case "Recover":
 		// restart after a crash: the dead manager is dropped, stores are
 		// opened anew on the files as they are
